@@ -49,7 +49,7 @@ def main(tier_, replay=None):
     strategies = ["last", "deepest", "shallowest-last", "random", "first"]
     viol, mism, total_runs, schedules = [], [], 0, set()
     files, meta = [], []
-    for si in range(-1, n_schemas + 1):
+    for si in list(range(n_schemas + 1)) + [-1]:       # the shared-root schema LAST: the random stream of the others is as before
         if si == 0:
             s = c08.handwritten_schema()
             base = c08.handwritten_cases(rng, c08.HAND_MUTATIONS)
